@@ -240,3 +240,54 @@ func (r *CRL) SetNextUpdate(n *Node) bool {
 	}
 	return false
 }
+
+// ---- OCSP ----
+
+// OCSPSingleTimes locates, inside an OCSPResponse tree, the first
+// SingleResponse's thisUpdate node and its [0] EXPLICIT nextUpdate wrapper
+// (nil when absent). Returned as (parent, index of thisUpdate).
+func OCSPSingleTimes(root *Node) (parent *Node, thisIdx int) {
+	var fp *Node
+	fi := -1
+	root.Walk(func(n *Node) {
+		if fp != nil || !n.Is(TagSequence) {
+			return
+		}
+		for i, ch := range n.Children {
+			if ch.Is(TagGenTime) && i >= 2 && n.Children[0].Is(TagSequence) {
+				// SingleResponse ::= SEQUENCE { certID SEQUENCE, certStatus CHOICE, thisUpdate, [0] nextUpdate OPTIONAL, ...}
+				if n.Children[1].Class == 2 {
+					fp, fi = n, i
+					return
+				}
+			}
+		}
+	})
+	return fp, fi
+}
+
+// OCSPSetNextUpdate sets (or inserts) nextUpdate of the first SingleResponse.
+func OCSPSetNextUpdate(root *Node, t *Node) bool {
+	p, i := OCSPSingleTimes(root)
+	if p == nil {
+		return false
+	}
+	if i+1 < len(p.Children) && p.Children[i+1].IsCtx(0) && p.Children[i+1].Constructed {
+		p.Children[i+1].Children = []*Node{t}
+		return true
+	}
+	ch := append([]*Node{}, p.Children[:i+1]...)
+	ch = append(ch, Ctx(0, t))
+	p.Children = append(ch, p.Children[i+1:]...)
+	return true
+}
+
+// OCSPSetThisUpdate sets thisUpdate of the first SingleResponse.
+func OCSPSetThisUpdate(root *Node, t *Node) bool {
+	p, i := OCSPSingleTimes(root)
+	if p == nil {
+		return false
+	}
+	p.Children[i] = t
+	return true
+}
